@@ -601,6 +601,18 @@ def _sub_key(node):
 
 
 def derived_alignment(ctx, mod, rule='C01-D5'):
+    # no representative element: nothing about a matrix operand is decided from one of its entries (entries of one matrix may live
+    # on different replicas, ensembles and covariance inputs)
+    f0 = mod.func('derived_observable')
+    rep = []
+    for n_ in walk(f0):
+        if isinstance(n_, ast.Subscript) and isinstance(n_.slice, ast.Constant) and n_.slice.value == 0:
+            b_ = n_.value
+            if (isinstance(b_, ast.Attribute) and b_.attr == 'flat') or (isinstance(b_, ast.Call) and isinstance(b_.func, ast.Attribute) and b_.func.attr in ('ravel', 'flatten', 'reshape')):
+                rep.append(n_)
+    ctx.check(rule, 'obs.py:derived_observable#no-representative-element', not rep, 'every entry of an operand is treated on its own',
+              'the first entry of an operand (`%s`) stands in for all its entries: chains / covariance inputs present only in other entries are handled wrongly' % (unparse(rep[0]) if rep else ''),
+              mod.loc(rep[0]) if rep else mod.loc(f0))
     f = mod.func('derived_observable')
     calls = [c for c in walk(f) if isinstance(c, ast.Call) and call_name(c) == '_expand_deltas_for_merge']
     ctx.floor('_expand_deltas_for_merge call sites in derived_observable', len(calls), 2)
